@@ -267,6 +267,7 @@ func cmdCheck(args []string) int {
 	}
 	var failing []failRec
 	var regressed []string
+	var needsContract []string
 	// name-shift ambiguity: obligations are named kind/text#ordinal; when the unchanged tree already had an undecided
 	// obligation with the same kind/text, an edit that inserts or removes a sibling can move an undecided instance
 	// onto a baseline name. Such a failure is reported only if its counter-model replays as a panic.
@@ -364,6 +365,16 @@ func cmdCheck(args []string) int {
 		for i, f := range failing {
 			if okc[i] {
 				discharged++
+				continue
+			}
+			if len(f.r.NewLoopHelpers) > 0 {
+				// the obligation was generated through a helper that is new since the baseline, contains loops and
+				// does not meet its package's default contract: it has no invariants, so the proof is limited by the
+				// missing contract, not by the code. Undecided until the helper gets a contract.
+				claimed--
+				undecided++
+				needsContract = append(needsContract, f.o.Name+" (through "+strings.Join(f.r.NewLoopHelpers, ", ")+")")
+				fmt.Printf("NEEDS-CONTRACT property=%s %s [%s]: new helper with loops %s has no contract (not reported as a violation)\n", id, f.o.Name, f.o.Answer, strings.Join(f.r.NewLoopHelpers, ", "))
 				continue
 			}
 			rp := writeReplay(e, run, f.r, f.o)
@@ -473,7 +484,7 @@ func cmdCheck(args []string) int {
 		"functions_under_contract":    run.FUC,
 		"obligations_generated_total": total,
 		"by_kind":                     kinds, "known_findings": knownList, "undecided_unclaimed": undecided, "undecided_list": undecidedList,
-		"baseline_obligations_gone": gone, "safety_obligations_regressed_without_failing_input": regressed, "solver_wins": solverWins, "solver_seconds": solverSecs,
+		"baseline_obligations_gone": gone, "safety_obligations_regressed_without_failing_input": regressed, "undecided_through_new_helpers_without_contract": needsContract, "solver_wins": solverWins, "solver_seconds": solverSecs,
 		"not_covered": run.NotCovered, "unsupported_notes": notes, "explanation": run.Explanation,
 		"bounded_stand_ins": run.Bounded, "abstracted_callees": run.Abstracted, "helpers_seen_through_inlining": e.Exempted,
 		"evaluations": total, "distinct_nontrivial": claimed, "rule": "one evaluation = one generated verification condition; non-trivial = claimed (in the committed baseline or generated from a contract/schema clause)",
